@@ -4,9 +4,10 @@ CONSTANTS
   Scripts <- T_Scripts
   MaxTick = 100000000
   MaxPid = 8
-  MaxFuel = 12
+  MaxFuel = 200
   Placement = "any"
   Defects <- T_Defects
+  IOModes = {"now", "later"}
 CHECK_DEADLOCK FALSE
 CONSTRAINT Progress
 POSTCONDITION TraceAccepted
